@@ -7,6 +7,11 @@
 //!   dbsim selftest <Cxx>                   determinism self-test
 
 mod c01;
+mod c04;
+mod cmodel;
+mod dbexec;
+mod dbmodel;
+mod dbprog;
 mod common;
 mod registry;
 mod sexec;
